@@ -12,7 +12,8 @@ CHECKS = {
     'C08': ('model_checking',
             'TLA+ state machine WarnCount (TLC exhaustive: operational loop = declarative sentence for every dict order, '
             'algebraic laws, action properties) + replay of every model state through the real logging stack / maxwarn parser '
-            '+ TLC batch validation of recorded evaluations',
+            '+ TLC batch validation of recorded evaluations + Apalache (SMT) proof of the same laws for three warning types over '
+            'unbounded integers (WarnCountApa), tied to WarnCountOps by a TLC bridge model',
             'Every (counts, allowances) input below the bound is decided by TLC and replayed on the real function; larger '
             'random inputs are recorded from the real function and judged by the TLA+ operators. Right level: the function '
             'is small with rich case analysis, so bounded-exhaustive agreement with the declarative form is achievable.',
